@@ -533,6 +533,10 @@ def generate(prop, seed, tier):
            'granularity': 'line' if (not thorough or sr.random() < 0.85) else 'call',
            'workers': [kn.choice([1, 1, 2, 16]), kn.choice([1, 1, 2, 16])],
            'rule_flip': None, 'stall': None, 'faults': []}
+    if nruns >= 2 and rng.stream(seed, 'rundtypes').random() < 0.35:
+        # each run() may bring traces of another storage dtype (an acquisition continued with another scope setting)
+        rd = rng.stream(seed, 'rundtypes2')
+        scn['tdtypes'] = [scn['tdtype']] + [rd.choice(['uint8', 'int16', 'float32']) for _ in range(nruns - 1)]
     npol = (4 if not faulty else 2) + (2 if thorough else 0)
     names = sr.sample(POLICIES, npol)
     if faulty and 'pfu' not in names and sr.random() < 0.5:
@@ -577,14 +581,15 @@ def generate(prop, seed, tier):
 def make_sets(scn):
     g = rng.np_stream(scn['table_seed'], 'ttest')
     out = []
-    td = np.dtype(scn['tdtype'])
-    for pair in scn['sets']:
+    for j, pair in enumerate(scn['sets']):
+        td = np.dtype((scn.get('tdtypes') or [scn['tdtype']] * len(scn['sets']))[j] if j < len(scn.get('tdtypes') or scn['sets']) else scn['tdtype'])
+        amp = min(scn['amp'], 254) if td == np.dtype('int8') else scn['amp']
         p = []
         for n in pair:
             raw = g.integers(0, 1 << 16, (64, 8))
-            s = raw[:n, :scn['m']] % (scn['amp'] + 1)
+            s = raw[:n, :scn['m']] % (amp + 1)
             if td.kind != 'u':
-                s = s - scn['amp'] // 2
+                s = s - amp // 2
             p.append(s.astype(td))
         out.append(p)
     return out
@@ -959,6 +964,9 @@ def candidates(scn):
                 continue
             c = copy.deepcopy(scn)
             del c['sets'][j]
+            if c.get('tdtypes'):
+                del c['tdtypes'][j]
+                c['tdtype'] = c['tdtypes'][0]
             for f in c['faults']:
                 if f['run'] > j:
                     f['run'] -= 1
@@ -977,7 +985,7 @@ def candidates(scn):
             c = copy.deepcopy(scn)
             del c['faults'][i]
             yield c
-    for key, val in (('chain', []), ('frame', None), ('rule_flip', None), ('stall', None), ('workers', [1, 1]), ('tdtype', 'uint8'), ('amp', 1)):
+    for key, val in (('chain', []), ('frame', None), ('rule_flip', None), ('stall', None), ('workers', [1, 1]), ('tdtypes', None), ('tdtype', 'uint8'), ('amp', 1)):
         if scn.get(key) != val:
             if key == 'chain' and any(f['kind'] == 'callback_error' for f in scn['faults']):
                 continue
@@ -1015,6 +1023,6 @@ def candidates(scn):
 
 
 def summary(scn):
-    s = {k: scn[k] for k in ('precision', 'tdtype', 'm', 'sets', 'rule', 'frame', 'chain', 'workers', 'rule_flip', 'stall', 'faults', 'granularity')}
+    s = {k: scn.get(k) for k in ('precision', 'tdtype', 'tdtypes', 'm', 'sets', 'rule', 'frame', 'chain', 'workers', 'rule_flip', 'stall', 'faults', 'granularity')}
     s['policies'] = [p['name'] + (':' + p['victim'] if 'victim' in p else '') for p in scn.get('policies', [])]
     return s
